@@ -397,6 +397,7 @@ def plan(tier, seed):
     jobs += [('ext', n, k, 16) for n in (2, 3) for k in range(16)]
     jobs += [('ext', 4, k, 64) for k in range(64 if not q else 16)]
     jobs += [('multidoc', k, 8) for k in range(8)]
+    jobs += [('sequencing', k, 16) for k in range(16)]
     return jobs
 
 
@@ -429,6 +430,15 @@ def run_job(job, T):
                 last = (sk, anchors, aliases)
         if last:
             T.sample(sub, {'doc': render(*last)})
+    elif kind == 'sequencing':
+        _, k, np_ = job
+        i = 0
+        for n in (1, 2, 3):
+            for idx in itertools.product(range(len(SEQ_ITEMS)), repeat=n):
+                i += 1
+                if i % np_ == k:
+                    check_sequencing(T, idx)
+        T.sample('sequencing', {'items': [SEQ_ITEMS[j] for j in idx]})
     elif kind == 'multidoc':
         _, k, np_ = job
         firsts = [(('Q', ('S',)), {(): 'a'}, {}), (('S',), {(): 'a'}, {}), (('M', ('S',), ('Q',)), {(1,): 'a'}, {}), (('Q',), {}, {})]
@@ -449,11 +459,83 @@ def run_job(job, T):
         raise ValueError(job)
 
 
+# ---------------------------------------------------------------- sequencing: a node's result must not depend on its siblings
+SEQ_PRELUDE = '- &x [1, 2]\n- &y {k: v}\n'
+SEQ_ITEMS = ['!!python/tuple [*x]', '!!python/object/apply:vf_shapes.make_factory [*x, 1]', '!!python/object/new:vf_shapes.NewArgs [*x, 2]',
+             '!!python/object:vf_shapes.StateDict {A: *x, B: 1}', '!!python/object/apply:vf_shapes.make_factory [[*x], 1]', '&r [1, *r]', '&m {self: *m}', '&s [[*s]]',
+             '&o !!python/object:vf_shapes.Plain {me: *o}', 'plain', '*x', '!!python/object/apply:vf_shapes.make_factory [*y, *x]', '!!set {a, b}',
+             '!!python/object/apply:collections.OrderedDict [[[a, *x], [b, 2]]]', '&t !!python/tuple [[*t]]', '!!python/object/new:vf_shapes.Slots {state: !!python/tuple [null, {x: *x}]}']
+_ALONE = {}
+
+
+def _seq_load(text, L):
+    try:
+        return ('ok', yaml.load(text, Loader=L))
+    except yaml.YAMLError as e:
+        return (type(e).__name__, str(e).replace('\n', ' ')[:120])
+    except RecursionError:
+        return ('!RecursionError', '')
+    except Exception as e:
+        return ('!' + type(e).__name__, str(e)[:120])
+
+
+def check_sequencing(T, idx):
+    """[x, y, item_1 .. item_n] loaded by the unsafe loaders: every item must be what it is when it is the only item after
+    the prelude (differential oracle: the state reached after other nodes were built vs the initial state)"""
+    from .c17 import canon as ocanon
+    import vf_shapes
+    names = set()
+    items = []
+    for j in idx:
+        it = SEQ_ITEMS[j]
+        # anchors of repeated items must stay unique within the document
+        if it[0] == '&':
+            nm = it[1]
+            k = 0
+            while nm + str(k) in names:
+                k += 1
+            names.add(nm + str(k))
+            it = it.replace('&' + nm, '&' + nm + str(k)).replace('*' + nm, '*' + nm + str(k))
+        items.append(it)
+    text = SEQ_PRELUDE + ''.join('- %s\n' % it for it in items)
+    case = {'doc': text, 'items': list(idx)}
+    if T.trace: T.begin(case)
+    for ln, L in (('Unsafe/py', yaml.UnsafeLoader), ('Unsafe/c', yaml.CUnsafeLoader)):
+        T.evaluations += 1
+        got = _seq_load(text, L)
+        want_items = []
+        bad = None
+        for j in idx:
+            key = (ln, j)
+            if key not in _ALONE:
+                r = _seq_load(SEQ_PRELUDE + '- %s\n' % SEQ_ITEMS[j], L)
+                _ALONE[key] = (r[0], ocanon(r[1]) if r[0] == 'ok' else r[1])
+            if _ALONE[key][0] != 'ok':
+                bad = _ALONE[key][0]
+            want_items.append(_ALONE[key])
+        if bad:
+            if got[0] == 'ok':
+                T.violation('sequencing', 'error-depends-on-siblings', case, detail='%s: an item that is rejected (%s) on its own is accepted among siblings in %r' % (ln, bad, text))
+            continue
+        if got[0] != 'ok':
+            T.violation('sequencing', 'outcome-depends-on-siblings', case, detail='%s: every item loads on its own, together %r gives %s %s' % (ln, text, got[0], got[1]))
+            continue
+        for pos, (j, w) in enumerate(zip(idx, want_items)):
+            sub = [got[1][0], got[1][1], got[1][2 + pos]]
+            if ocanon(sub) != w[1]:
+                T.violation('sequencing', 'result-depends-on-siblings', case, detail='%s: item %d (%s) of %r is %s; alone after the prelude it is %s' % (ln, pos, SEQ_ITEMS[j], text, _short(ocanon(sub)), _short(w[1])))
+                break
+    T.nontrivial += 1
+
+
 def _fix(x):
     return tuple(_fix(i) for i in x) if isinstance(x, (list, tuple)) else x
 
 
 def replay(sub, case, T):
+    if sub == 'sequencing':
+        check_sequencing(T, tuple(case['items']))
+        return
     docs = []
     for sk, an, al in case['skeleton']:
         docs.append((_fix(sk), {tuple(p): n for p, n in an}, {tuple(p): n for p, n in al}))
